@@ -147,7 +147,7 @@ example : VocabHistAll [.csi [109] [(1, []), (38, []), (5, []), (9, [])], .print
     reference's function of the first parameter, for every related pair of states. -/
 theorem emu_refines_term_long {t : Term.T} {e : Emu} {rows cols : Nat} (f : Nat) (pm : List Param) (tok : Term.Tok)
     (hf : f ∈ onePs) (h84 : f = 84 → pm.length ≠ 5)
-    (h : tokOfX (.csi [f] pm) = some tok) (hns : ∀ ps, tok ≠ .sgr ps) (s2 : Sim2 t e rows cols) :
+    (h : tokOfX (.csi [f] pm) = some tok) (s2 : Sim2 t e rows cols) :
     ∃ r, emuStep e (.csi [f] pm) = .ok r ∧ Refines2 (Term.step t tok) r.1 rows cols := by
   have h' : tokOf (.csi [f] (firstOnly pm)) = some tok := by
     unfold tokOfX at h
@@ -162,7 +162,7 @@ theorem emu_refines_term_long {t : Term.T} {e : Emu} {rows cols : Nat} (f : Nat)
       exact h
     · rename_i hne; exact absurd rfl (hne f pm)
   exact emu_refines_step_long _ tok
-    ⟨f, pm, rfl, hf, h84, h', fun ps hps => absurd hps (hns ps), fun g w hc => by cases hc⟩ s2
+    ⟨f, pm, rfl, hf, h84, h', fun ps hps => absurd hps (tokOf_one_not_sgr f _ tok hf h' ps), fun g w hc => by cases hc⟩ s2
 
 /-- **Cursor visibility** (`CSI ? 25 h` / `CSI ? 25 l`): for states related by `SimC` (= `Sim2` and the
     cursor's visibility and shape agree) the step succeeds, is what the reference's `showCursor` does,
